@@ -408,6 +408,11 @@ func (o *AlonzoTransactionOutput) UnmarshalCBOR(cborData []byte) error {
 }
 
 func (o *AlonzoTransactionOutput) MarshalCBOR() ([]byte, error) {
+	// Return the original CBOR if available so that re-encoding a decoded
+	// object reproduces the exact bytes it was decoded from
+	if o.Cbor() != nil {
+		return o.Cbor(), nil
+	}
 	if o.legacyOutput {
 		tmpOutput := mary.MaryTransactionOutput{
 			OutputAddress: o.OutputAddress,
